@@ -1,4 +1,4 @@
-"""C39 -- column encryption is transparent, including for nulls (pure-Python half).
+"""C39 -- column encryption is transparent, including for nulls (pure-Python and compiled decoders).
 
 client side                                    fake server                          client side
 PreparedStatement.bind(row) with the policy -> stores exactly the bound bytes   ->  RESULT/rows body encoded by hand
@@ -8,7 +8,7 @@ PreparedStatement.bind(row) with the policy -> stores exactly the bound bytes   
 
 Independent parts: the RESULT body encoder and type-code table below, the plaintext reference
 (spec.values.encode), AES-256-CBC + PKCS7 decryption with `cryptography` and the case's own key.
-The compiled-decoder half (obj_parser ListParser/LazyParser) plugs in through DECODERS.
+The compiled decoders (obj_parser ListParser/LazyParser, checks/_c39_cy.py) are entries of DECODERS.
 """
 import struct
 
@@ -36,7 +36,9 @@ ASSUMPTIONS = [
     "plaintext reference is spec.values.encode; decoded values are compared through spec.values.normalise/same (sets sorted, floats by bits)",
     "timestamps are drawn within +-2**41 ms so that the known DateType sub-millisecond drift (C01) does not leak in",
     "independent decryption uses the `cryptography` package primitives (AES-256, CBC, PKCS7) directly with the case's key; the IV is the first 16 bytes of the stored value",
-    "pure-Python decoder only (_ProtocolHandler with ResultMessage.recv_results_rows); the compiled ListParser/LazyParser half is added through DECODERS",
+    "every case is decoded three times: by the pure-Python _ProtocolHandler in this process, and by cython_protocol_handler(ListParser()) "
+    "and (LazyParser()) of a .pyx build of the current tree (build/cybuild.py) in a worker process (checks/_c39_cy.py), which rebuilds "
+    "the policy and result metadata from the case and returns the rows normalised by spec.values; all three are compared with the original values",
 ]
 
 PVS = [1, 2, 3, 4, 5, 6, 0x41, 0x42]
@@ -163,7 +165,9 @@ def decode_pure(case, body, policy, result_metadata):
     return [tuple(r) for r in msg.parsed_rows]
 
 
-DECODERS = [("pure", decode_pure)]          # the compiled half appends ("list-parser", fn), ("lazy-parser", fn)
+from checks import _c39_cy                  # noqa: E402  the compiled half (worker process on a fresh .pyx build)
+
+DECODERS = [("pure", decode_pure), ("list-parser", _c39_cy.decode_list), ("lazy-parser", _c39_cy.decode_lazy)]
 
 
 def _null_feature(case, rows):
@@ -185,6 +189,11 @@ def _compare_rows(ctx, key, case, want_rows, got_rows, who):
             if w is None or g is None:
                 ok = w is None and g is None
                 norm = g
+            elif isinstance(g, _c39_cy.Normalised):
+                # decoded in the compiled-tree worker, which already normalised the driver object
+                tree = V.T(c["type"])
+                norm = g.problem if g.problem else g.value
+                ok = (not g.problem) and V.same(tree, w, g.value)
             else:
                 tree = V.T(c["type"])
                 try:
@@ -288,4 +297,7 @@ def interpret(case, ctx):
 
 
 def parts(tier):
+    import os
+    if os.environ.get("VERIF_TIER") == tier:
+        _c39_cy.prepare()        # .pyx build (or cache hit) once, before the shard workers fork
     return [hyp_part("rows", s_case, interpret, tier, quick=250, thorough=4000, quick_shards=8, thorough_shards=16)]
